@@ -44,15 +44,19 @@ pub fn run_impl(c: &mut Case) {
             quorum: dec(q),
         },
     };
-    let block = BlockInfo {
-        height: 1000,
-        time: Timestamp::from_seconds(1_600_000_000),
-        chain_id: "verif".to_string(),
-    };
-    let expires = if c.expired {
-        Expiration::AtHeight(1000)
-    } else {
-        Expiration::AtHeight(1001)
+    // "expired" is realised in several ways, chosen by the case's own numbers: by height, and by time with the
+    // expiry inside the block's own second (before / after the block's sub-second part), or far away
+    let now = Timestamp::from_nanos(1_600_000_000_700_000_000);
+    let block = BlockInfo { height: 1000, time: now, chain_id: "verif".to_string() };
+    let expires = match ((c.yes ^ c.total ^ c.no) % 4, c.expired) {
+        (0, true) => Expiration::AtHeight(1000),
+        (0, false) => Expiration::AtHeight(1001),
+        (1, true) => Expiration::AtTime(now),
+        (1, false) => Expiration::AtTime(now.plus_nanos(1)),
+        (2, true) => Expiration::AtTime(now.minus_nanos(400_000_000)),
+        (2, false) => Expiration::AtTime(now.plus_nanos(200_000_000)),
+        (_, true) => Expiration::AtTime(now.minus_seconds(1)),
+        (_, false) => Expiration::Never {},
     };
     let prop = Proposal {
         title: "t".into(),
